@@ -30,7 +30,12 @@ def runner(ctx, mode, names, tag, offset=0, seed=0, full=False):
     env = dict(os.environ)
     env["VERIF_REPO"] = core.REPO
     env["PYTHONHASHSEED"] = "0"
-    p = subprocess.run([sys.executable, RUNNER, "--mode", mode, "--names", nf, "--out", of,
+    bf = os.path.join(ctx.rundir, "builders.json")
+    if not os.path.exists(bf):
+        core.setup_repo_path()
+        from harness.drivers import c12
+        json.dump([[fam, opname] for fam, opname, _ in c12.builders()], open(bf, "w"))
+    p = subprocess.run([sys.executable, RUNNER, "--mode", mode, "--names", nf, "--out", of, "--builders", bf,
                         "--offset-days", str(offset), "--seed", str(seed)] + (["--full"] if full else []),
                        env=env, stdout=subprocess.PIPE, stderr=subprocess.STDOUT, text=True, timeout=1200)
     if p.returncode != 0 or not os.path.exists(of):
@@ -53,7 +58,7 @@ def run(ctx):
     ctx.assumptions += [
         "results are compared by value (bytes, bits, public and private fields), not by object identity; log output is not a result",
         "the catalogue is finite (listed in the evidence); in-place Hamming repair is exempt from the argument check",
-        "pristine process = the library imported, no call made (children forked from such a parent)",
+        "pristine process = the library imported, no call made (children forked from such a parent); a second reference starts from an interpreter that has not imported the library",
         "clock shift by replacing datetime.date/datetime and time.time before the library is imported",
     ]
     with open(os.path.join(ctx.rundir, "MC_Purity_run.cfg"), "w") as f:
@@ -93,6 +98,19 @@ def run(ctx):
             ctx.violation(f"purity/clock/{n.split('#')[0]}/{where}",
                           f"{n}: the same first call in two pristine processes with different date/seed differs at {where}",
                           {"sig": n, "kind": "clock", "paths": paths})
+    # import order: the same first call in an interpreter that has not imported the library at all (each child imports what its
+    # own call chain imports) - a result must not depend on which other modules of the library happen to be loaded
+    with ThreadPoolExecutor(core.NCPU) as ex:
+        outs3 = list(ex.map(lambda a: runner(ctx, "cold", a[1], f"cold{a[0]}"), enumerate(parts)))
+    cold = {}
+    for o in outs3:
+        cold.update(o)
+    for n in names:
+        ctx.count("cold>" + n)
+        if cold[n][0] != ref[n][0]:
+            ctx.violation(f"purity/import-order/{n.split('#')[0]}",
+                          f"{n}: the first call in an interpreter that had not imported the library gives {str(cold[n][2])[:80]}, with every module "
+                          f"of the library imported beforehand it gives {str(ref[n][2])[:80]}", {"sig": n, "kind": "cold"})
     for n, v in ref.items():
         if not v[1]:
             ctx.violation(f"purity/ArgumentsIntact/{n.split('#')[0]}", f"{n}: argument buffer altered by the call (first call)",
